@@ -70,4 +70,24 @@ def flagSet (std : Stdlib) (o : Opts) (autoBool : Bool) (c : Collector) (arg : S
 def flagSets (std : Stdlib) (o : Opts) (autoBool : Bool) (c : Collector) (args : List String) : Collector :=
   args.foldl (flagSet std o autoBool) c
 
+/-! ### file flags (flag/file.go NewFlagFiles): the same collector behind another loader -/
+
+/-- one argument of a file flag, by what its loader does with it -/
+inductive FileArg where
+  | doc (d : GoData)     -- a loader is registered for the extension (or as the "" fallback) and decodes the file to this value
+  | fail                 -- no loader for the extension, a file that does not exist, or a text the decoder refuses
+  deriving Repr, Inhabited
+
+/-- the loader of NewFlagFiles: `loader(path, opts...)` - the flag's options create the config -/
+def fileLoad (o : Opts) : FileArg → Outcome (Option Val)
+  | .doc d => (newFrom o d).bind (fun c => .ok (some c))
+  | .fail => raiseRaw .other
+
+def fileSets (o : Opts) (c : Collector) (args : List FileArg) : Collector :=
+  args.foldl (fun c a => collectorAdd o c (fileLoad o a)) c
+
+/-- the collector fed with the loader results of a sequence of arguments, whatever the loader -/
+def collect (o : Opts) (c : Collector) (rs : List (Outcome (Option Val))) : Collector :=
+  rs.foldl (collectorAdd o) c
+
 end Ucfg
